@@ -1097,6 +1097,10 @@ class Scanner:
             if base is None:
                 return None
             return sp.Indexed(sp.IndexedBase(base), *(list(idx) + [K_])), SIZE(sp.Indexed(sp.IndexedBase(base), *idx))
+        d_ = A.declref(o)
+        if d_ is not None and d_.get("decl") in self.tr.env and d_["decl"] in self.locals and isinstance(self.tr.env[d_["decl"]], sp.Indexed):
+            row = self.tr.env[d_["decl"]]          # a local that stands for a row of an array (const auto column = _data[n][x]): that row
+            return sp.Indexed(row.base, *(list(row.indices) + [K_])), SIZE(row)
         nm = A.this_field(o) or (A.declref(o) or {}).get("name")
         if nm is None and o.get("k") == "MemberExpr":
             nm = A.show(o).replace(" ", "").replace("->", ".")        # a container member of another object: rhs._data
